@@ -407,17 +407,21 @@ def graph_features(snap, sigs, root):
             for a in c["args"] + [v for _, v in c["kwargs"]]:
                 if not is_bare(a):
                     feats.add("compound-argument")
-            # C04 findings leak into substitution
+            # the three KNOWN C04 defect classes leak into substitution; they are recognised from the
+            # signature and the call alone (never from what the implementation under test answers)
             sig = Closure(snap, sigs, 0).sig_of(g)
-            im = c04mod.run_impl(sig, {"args": c["args"], "kwargs": c["kwargs"]})
             pb = c04mod.python_bind(sig, {"args": c["args"], "kwargs": c["kwargs"]})
             if pb[0] != "ok":
                 feats.add("python-rejected-call")
-            if pb[0] == "ok":
-                exp = sorted([list(x) for x in pb[1]] + ([[sig["vararg"], "@Tuple"]] if sig["vararg"] else [])
-                             + ([[sig["kwarg"], "@Dict"]] if sig["kwarg"] else []))
-                if im.get("swaps") != exp or im.get("diags"):
-                    feats.add("c04-binding-finding")
+            else:
+                kw_keys = [k for k, _ in c["kwargs"]]
+                clash = [p["name"] for p in sig["posonly"]] + [x for x in (sig["vararg"], sig["kwarg"]) if x]
+                if sig["kwarg"] and any(k in clash for k in kw_keys):
+                    feats.add("c04-binding-finding")          # accepted call diagnosed 'by position and name'
+                if len(c["args"]) < len(sig["posonly"]):
+                    feats.add("c04-binding-finding")          # omitted positional-only parameter with a default
+                if sig["kwarg"] and not pb[3]:
+                    feats.add("c04-binding-finding")          # **kwargs receives nothing: left unmapped
             walk(g, depth + 1)
         on_path.pop()
 
